@@ -56,14 +56,20 @@ impl AnKind for SizeDepth {
     fn multi(_: &EGraph<T, SizeDepth>, _: &MultiPattern<T>) -> Option<Vec<Subst>> { None }
 }
 
-const PATTERNS: [&str; 18] = [
+const PATTERNS: [&str; 25] = [
     "?a", "(g ?a)", "(h ?a ?b)", "(h ?a ?a)", "(f {1} {2})", "(f {1} {1})", "(f3 {1} {2} {3})", "(v {1})",
     "(lam {1} ?a)", "(g (f {1} {2}))", "(h (f {1} {2}) ?b)", "(h (f {1} {2}) (f {2} {3}))", "(lam {1} (f {1} {2}))",
     "(lam {1} (f {2} {1}))", "(let {1} ?a ?b)", "(k ?a {1} ?b)", "(sum ?a {1} {2} ?b)", "(g (g ?a))",
+    // a variable before the node that carries the pattern's free slot; distinct pattern slots
+    "(h ?a (v {1}))", "(h (v {1}) ?a)", "(h ?a (p {1} {2}))", "(h (v {1}) (v {2}))", "(h (p {1} {2}) (p {2} {1}))",
+    "(lam {1} (h ?a (v {1})))", "(h (p {1} {2}) (v {1}))",
 ];
-const MULTIPATTERNS: [&str; 5] = [
+const MULTIPATTERNS: [&str; 11] = [
     "?x == (h ?a ?b), ?a == (f {1} {2})", "?x == (g ?a), ?a == (g ?b)", "?x == (h ?a ?a)", "?x == (f {1} {2})",
     "?x == (h ?a ?b), ?b == (v {1}), ?a == (f {1} {2})",
+    "?x == (p {1} {2}), ?y == (p {2} {1})", "?x == (h ?a ?b), ?y == (h ?b ?a)", "?x == (lam {1} ?a), ?a == (p {1} {2})",
+    "?x == (h ?a ?b), ?a == (v {1}), ?b == (v {1})", "?x == (h ?a ?b), ?a == (v {1}), ?b == (v {2})",
+    "?x == (h ?a ?b), ?a == (p {1} {2}), ?b == (p {2} {1})",
 ];
 
 fn concrete(text: &str, nm: &Naming) -> String {
@@ -608,6 +614,7 @@ impl<'a> PathRun<'a> {
                 Err(p) => {
                     self.stats.panics += 1;
                     self.finding("C06", "Extractor::new panics", key, path, step, &site_key(&p), json!({"msg": p.msg, "cost_fn": cname}));
+                    self.finding("C08", "panic in Extractor::new", key, path, step, &site_key(&p), json!({"msg": p.msg, "cost_fn": cname}));
                     return;
                 }
             };
@@ -628,6 +635,7 @@ impl<'a> PathRun<'a> {
                         self.stats.panics += 1;
                         self.finding("C06", "extract panics", key, path, step, &site_key(&p),
                             json!({"msg": p.msg, "cost_fn": cname, "term": ctx.us[i].show(), "class_slots": a.slots().len(), "term_fv": ctx.us[i].fv().len()}));
+                        self.finding("C08", "panic in Extractor::extract", key, path, step, &site_key(&p), json!({"msg": p.msg, "term": ctx.us[i].show()}));
                         return;
                     }
                     Ok((t, best, c, same)) => {
